@@ -61,6 +61,9 @@ func (s *State) evalIndexAssigment(which ast.Node, index, value object.Object) o
 	if which.Value().Type() != token.IDENT {
 		return s.NewError("index assignment to non identifier: " + which.Value().DebugString())
 	}
+	// store values, not the (loop) registers they may come from.
+	index = object.CopyRegister(index)
+	value = object.CopyRegister(value)
 	id, _ := which.(*ast.Identifier)
 	val, ok := s.env.Get(id.Literal())
 	if !ok {
@@ -365,12 +368,12 @@ func (s *State) evalMapLiteral(node *ast.MapLiteral) object.Object {
 
 	for _, keyNode := range node.Order {
 		valueNode := node.Pairs[keyNode]
-		key := s.Eval(keyNode)
+		key := object.CopyRegister(s.Eval(keyNode)) // store the value, not the (loop) register.
 		if !object.Equals(key, key) {
 			log.Warnf("key %s is not hashable", key.Inspect())
 			return s.NewError("key " + key.Inspect() + " is not hashable")
 		}
-		value := s.Eval(valueNode)
+		value := object.CopyRegister(s.Eval(valueNode))
 		result = result.Set(key, value)
 	}
 	return result
